@@ -47,6 +47,9 @@ pub struct ClientCase {
     /// a failure: while the tunnel is down and nobody drains the client's datagram queue)
     #[serde(default)]
     pub udp_burst: u16,
+    /// the server's abrupt drops are TCP resets (SO_LINGER 0: the client sees ECONNRESET, a retryable reason) instead of FINs
+    #[serde(default)]
+    pub tcp_reset: bool,
 }
 
 pub fn rt() -> &'static tokio::runtime::Runtime {
@@ -118,12 +121,17 @@ async fn serve_mux(ws: tokio_tungstenite::WebSocketStream<tokio::net::TcpStream>
     }
 }
 
-async fn fake_server(listener: TcpListener, script: Vec<Attempt>, obs: Arc<Mutex<Obs>>, t0: Instant) {
+async fn fake_server(listener: TcpListener, script: Vec<Attempt>, obs: Arc<Mutex<Obs>>, t0: Instant, tcp_reset: bool) {
     let mut n = 0usize;
     let mut held = vec![];
     loop {
         let Ok((mut stream, _)) = listener.accept().await else { continue };
         let how = script.get(n).copied().unwrap_or(*script.last().unwrap());
+        if tcp_reset && matches!(how, Attempt::AcceptAndDrop | Attempt::ServeThenDrop(_) | Attempt::SilentThenDrop(_)) {
+            // closing this socket sends RST instead of FIN
+            #[allow(deprecated)]
+            stream.set_linger(Some(Duration::ZERO)).ok();
+        }
         let idx = {
             let mut o = obs.lock().unwrap();
             o.attempts.push((t0.elapsed().as_millis() as u64, how, None));
@@ -222,7 +230,7 @@ pub async fn run_client_case(c: &ClientCase) -> Result<RunOut, String> {
     let listener = TcpListener::bind("127.0.0.1:0").await.map_err(|e| format!("bind: {e}"))?;
     let port = listener.local_addr().unwrap().port();
     let obs = Arc::new(Mutex::new(Obs::default()));
-    let server = tokio::spawn(fake_server(listener, c.script.clone(), obs.clone(), t0));
+    let server = tokio::spawn(fake_server(listener, c.script.clone(), obs.clone(), t0, c.tcp_reset));
     let uds = tmp_dir().join(format!("c19-{}-{}.sock", std::process::id(), UNIQ.fetch_add(1, Ordering::Relaxed)));
     let _ = std::fs::remove_file(&uds);
     let udp_port = {
@@ -554,34 +562,34 @@ fn attempt() -> impl Strategy<Value = Attempt> {
 fn client_case() -> impl Strategy<Value = ClientCase> {
     prop_oneof![
         // reconnect scripts ending in a healthy server, with a local connection at some point
-        6 => (prop::collection::vec(attempt(), 0..5), 200u64..1000, prop_oneof![Just(0u32), 4u32..8], prop::option::weighted(0.8, 0u8..5), 0u16..300, prop_oneof![3 => Just(0u16), 1 => Just(10u16), 1 => Just(70u16), 1 => Just(300u16)]).prop_map(|(mut script, mri, mrc, la, ld, burst)| {
+        6 => (prop::collection::vec(attempt(), 0..5), 200u64..1000, prop_oneof![Just(0u32), 4u32..8], prop::option::weighted(0.8, 0u8..5), 0u16..300, (prop_oneof![3 => Just(0u16), 1 => Just(10u16), 1 => Just(70u16), 1 => Just(300u16)], any::<bool>())).prop_map(|(mut script, mri, mrc, la, ld, (burst, tcp_reset))| {
             // keep consecutive failures below the limit so that the healthy server is reached
             if mrc != 0 {
                 script.truncate(3);
             }
             let la = la.map(|x| x.min(script.len() as u8));
             script.push(Attempt::Healthy);
-            ClientCase { script, max_retry_count: mrc, max_retry_interval: mri, local_after_attempt: la, local_delay_ms: ld, udp_burst: burst }
+            ClientCase { script, max_retry_count: mrc, max_retry_interval: mri, local_after_attempt: la, local_delay_ms: ld, udp_burst: burst, tcp_reset }
         }),
         // a stalled stream request: handshake, then silence; the local connection must be served by the next connection
-        1 => (200u64..1000, 0u16..200).prop_map(|(mri, ld)| ClientCase { script: vec![Attempt::HandshakeThenSilent, Attempt::Healthy], max_retry_count: 0, max_retry_interval: mri, local_after_attempt: Some(0), local_delay_ms: ld, udp_burst: 0 }),
+        1 => (200u64..1000, 0u16..200).prop_map(|(mri, ld)| ClientCase { script: vec![Attempt::HandshakeThenSilent, Attempt::Healthy], max_retry_count: 0, max_retry_interval: mri, local_after_attempt: Some(0), local_delay_ms: ld, udp_burst: 0, tcp_reset: false }),
         // a stream request is pending (never answered) when the connection is dropped: it must be parked and served by the next connection
-        2 => (200u64..1000, 30u16..400, 0u16..20).prop_map(|(mri, d, ld)| ClientCase { script: vec![Attempt::SilentThenDrop(d), Attempt::Healthy], max_retry_count: 0, max_retry_interval: mri, local_after_attempt: Some(0), local_delay_ms: ld, udp_burst: 0 }),
+        2 => (200u64..1000, 30u16..400, 0u16..20, any::<bool>()).prop_map(|(mri, d, ld, tcp_reset)| ClientCase { script: vec![Attempt::SilentThenDrop(d), Attempt::Healthy], max_retry_count: 0, max_retry_interval: mri, local_after_attempt: Some(0), local_delay_ms: ld, udp_burst: 0, tcp_reset }),
         // giving up after max_retry_count
         2 => (1u32..=4, 200u64..700, prop::bool::weighted(0.2)).prop_map(|(mrc, mri, stall)| {
             let mut script = vec![Attempt::AcceptAndDrop; mrc as usize + 2];
             if stall {
                 script[0] = Attempt::AcceptAndStall;
             }
-            ClientCase { script, max_retry_count: mrc, max_retry_interval: mri, local_after_attempt: None, local_delay_ms: 0, udp_burst: 0 }
+            ClientCase { script, max_retry_count: mrc, max_retry_interval: mri, local_after_attempt: None, local_delay_ms: 0, udp_burst: 0, tcp_reset: false }
         }),
         // never giving up with max_retry_count = 0
-        1 => (200u64..500).prop_map(|mri| ClientCase { script: vec![Attempt::AcceptAndDrop; 6], max_retry_count: 0, max_retry_interval: mri, local_after_attempt: None, local_delay_ms: 0, udp_burst: 0 }),
+        1 => (200u64..500).prop_map(|mri| ClientCase { script: vec![Attempt::AcceptAndDrop; 6], max_retry_count: 0, max_retry_interval: mri, local_after_attempt: None, local_delay_ms: 0, udp_burst: 0, tcp_reset: false }),
         // non-retryable answer
         1 => (prop::collection::vec(Just(Attempt::AcceptAndDrop), 0..3), 200u64..800).prop_map(|(mut script, mri)| {
             script.push(Attempt::Http403);
             script.push(Attempt::Healthy);
-            ClientCase { script, max_retry_count: 0, max_retry_interval: mri, local_after_attempt: None, local_delay_ms: 0, udp_burst: 0 }
+            ClientCase { script, max_retry_count: 0, max_retry_interval: mri, local_after_attempt: None, local_delay_ms: 0, udp_burst: 0, tcp_reset: false }
         }),
     ]
 }
@@ -610,7 +618,7 @@ pub fn run(ctx: &Ctx, rep: &mut Report) {
         |i| {
             let served = if i % 2 == 0 { Attempt::ServeThenClose(40 + 20 * (i as u16 / 4)) } else { Attempt::ServeThenDrop(40 + 20 * (i as u16 / 4)) };
             let mri = if (i / 2) % 2 == 0 { 3200 } else { 1600 };
-            ClientCase { script: vec![Attempt::AcceptAndDrop, Attempt::AcceptAndDrop, Attempt::AcceptAndDrop, served, Attempt::AcceptAndDrop, Attempt::Healthy], max_retry_count: 0, max_retry_interval: mri, local_after_attempt: Some(4), local_delay_ms: 10, udp_burst: if i % 2 == 0 { 200 } else { 0 } }
+            ClientCase { script: vec![Attempt::AcceptAndDrop, Attempt::AcceptAndDrop, Attempt::AcceptAndDrop, served, Attempt::AcceptAndDrop, Attempt::Healthy], max_retry_count: 0, max_retry_interval: mri, local_after_attempt: Some(4), local_delay_ms: 10, udp_burst: if i % 2 == 0 { 200 } else { 0 }, tcp_reset: (i / 2) % 2 == 1 }
         },
         check,
     );
